@@ -15,35 +15,58 @@
 (* Program = sequence of <<executor, job>> submissions and "D" (drain M);   *)
 (* a final drain is implied.  A job object is only submitted while it is    *)
 (* not queued anywhere (the client contract of intrusive jobs).             *)
+(* chain = "1<e>2": whenever job 1 is Called it submits job 2 to executor  *)
+(* <e> from inside its Call (re-entrant submission, e.g. to the strand that *)
+(* is running it), unless job 2 is queued at that moment.                   *)
 (***************************************************************************)
 EXTENDS Naturals, Sequences, FiniteSets, TLC, Json
 
 CONSTANTS Jobs,      \* job objects, as strings: {"1", "2", "3"}
           Execs,     \* subset of {"M", "S", "T", "R", "I", "J"}
+          Chains,    \* subset of {"none", "1M2", "1S2", "1T2", "1R2", "1I2"}
           MaxLen
 
 Strands == {"S", "T"}
 
-VARIABLES prog,      \* operations so far: <<e, j>> or <<"D", "0">>
+VARIABLES chain,     \* the program's chain parameter
+          prog,      \* operations so far: <<e, j>> or <<"D", "0">>
           mq,        \* M's queue: job numbers and strand names
           pend,      \* per strand over M: pending jobs (FIFO)
           sched,     \* per strand over M: is it in M's queue
           calls, drops, log
 
-vars == <<prog, mq, pend, sched, calls, drops, log>>
+vars == <<chain, prog, mq, pend, sched, calls, drops, log>>
 
-Init == /\ prog = <<>> /\ mq = <<>> /\ pend = [s \in Strands |-> <<>>] /\ sched = [s \in Strands |-> FALSE]
+ChainExec(c) == CASE c = "1M2" -> "M" [] c = "1S2" -> "S" [] c = "1T2" -> "T" [] c = "1R2" -> "R" [] c = "1I2" -> "I" [] OTHER -> "-"
+
+Init == /\ chain \in Chains /\ prog = <<>> /\ mq = <<>> /\ pend = [s \in Strands |-> <<>>] /\ sched = [s \in Strands |-> FALSE]
         /\ calls = [j \in Jobs |-> 0] /\ drops = [j \in Jobs |-> 0] /\ log = <<>>
 
-Queued(j) == \/ \E k \in 1..Len(mq) : mq[k] = j
-             \/ \E s \in Strands : \E k \in 1..Len(pend[s]) : pend[s][k] = j
+\* (st.run: the rest of the batch a strand is running right now -- still linked, not yet Called)
+QueuedIn(st, j) == \/ \E k \in 1..Len(st.mq) : st.mq[k] = j
+                   \/ \E s \in Strands : \E k \in 1..Len(st.pend[s]) : st.pend[s][k] = j
+                   \/ \E k \in 1..Len(st.run) : st.run[k] = j
 
-Called(st, j) == [st EXCEPT !.calls[j] = @ + 1, !.log = Append(@, <<"c", j>>)]
+RECURSIVE Called(_, _), SubmitSt(_, _, _)
 Dropped(st, j) == [st EXCEPT !.drops[j] = @ + 1, !.log = Append(@, <<"d", j>>)]
+\* Call of job j; job 1 may submit job 2 from inside its Call
+Called(st, j) ==
+  LET s1 == [st EXCEPT !.calls[j] = @ + 1, !.log = Append(@, <<"c", j>>)] IN
+  IF j = "1" /\ st.chain # "none" /\ ~QueuedIn(s1, "2") THEN SubmitSt(s1, ChainExec(st.chain), "2") ELSE s1
+\* IExecutor::Submit as a function of the state
+SubmitSt(st, e, j) ==
+  CASE e = "M" -> [st EXCEPT !.mq = Append(@, j)]
+    [] e \in Strands -> [st EXCEPT !.pend[e] = Append(@, j),
+                                  !.sched[e] = TRUE,
+                                  !.mq = IF st.sched[e] THEN @ ELSE Append(@, e)]
+    [] e = "R" -> Dropped(st, j)      \* the strand is refused by its executor: it drops what it holds
+    [] e = "I" -> Called(st, j)
+    [] e = "J" -> Dropped(st, j)
 
-\* drain M: jobs are called in FIFO order; a strand runs its whole pending batch and goes idle
+\* drain M: jobs are called in FIFO order; a strand runs the batch it holds at that moment and goes idle; what is
+\* submitted to it meanwhile (also by its own jobs) makes it schedule itself again behind the batch
 RECURSIVE RunBatch(_, _)
-RunBatch(st, b) == IF b = <<>> THEN st ELSE RunBatch(Called(st, Head(b)), Tail(b))
+RunBatch(st, b) == IF b = <<>> THEN [st EXCEPT !.run = <<>>] ELSE RunBatch(Called([st EXCEPT !.run = Tail(b)], Head(b)), Tail(b))
 RECURSIVE DrainQ(_)
 DrainQ(st) ==
   IF st.mq = <<>> THEN st
@@ -53,19 +76,13 @@ DrainQ(st) ==
              THEN DrainQ(RunBatch([st1 EXCEPT !.pend[h] = <<>>, !.sched[h] = FALSE], st.pend[h]))
              ELSE DrainQ(Called(st1, h))
 
-State == [mq |-> mq, pend |-> pend, sched |-> sched, calls |-> calls, drops |-> drops, log |-> log]
-Set(st) == /\ mq' = st.mq /\ pend' = st.pend /\ sched' = st.sched /\ calls' = st.calls /\ drops' = st.drops /\ log' = st.log
+State == [chain |-> chain, run |-> <<>>, mq |-> mq, pend |-> pend, sched |-> sched, calls |-> calls, drops |-> drops, log |-> log]
+Set(st) == /\ chain' = chain /\ mq' = st.mq /\ pend' = st.pend /\ sched' = st.sched /\ calls' = st.calls /\ drops' = st.drops /\ log' = st.log
 
 Submit(e, j) ==
-  /\ ~Queued(j)
+  /\ ~QueuedIn(State, j)
   /\ prog' = Append(prog, <<e, j>>)
-  /\ CASE e = "M" -> Set([State EXCEPT !.mq = Append(@, j)])
-       [] e \in Strands -> Set([State EXCEPT !.pend[e] = Append(@, j),
-                                             !.sched[e] = TRUE,
-                                             !.mq = IF sched[e] THEN @ ELSE Append(@, e)])
-       [] e = "R" -> Set(Dropped(State, j))      \* the strand is refused by its executor: it drops what it holds
-       [] e = "I" -> Set(Called(State, j))
-       [] e = "J" -> Set(Dropped(State, j))
+  /\ Set(SubmitSt(State, e, j))
 
 Drain == /\ prog' = Append(prog, <<"D", "0">>)
          /\ Set(DrainQ(State))
@@ -79,11 +96,16 @@ Spec == Init /\ [][Next]_vars
 \* the final state after the implied last drain
 Final == DrainQ(State)
 Subs(j) == Cardinality({k \in 1..Len(prog) : prog[k][2] = j})
-\* every submission is finished by exactly one of Call or Drop
-CalledXorDropped == \A j \in Jobs : Final.calls[j] + Final.drops[j] = Subs(j)
+\* every submission is finished by exactly one of Call or Drop (job 2 may also be submitted by job 1: one more per Call of
+\* job 1 at most)
+CalledXorDropped == \A j \in Jobs :
+   LET n == Final.calls[j] + Final.drops[j] IN
+   IF j = "2" /\ chain # "none" THEN n >= Subs(j) /\ n <= Subs(j) + Final.calls["1"] ELSE n = Subs(j)
 \* Drop only through an executor that refuses work
-DropOnlyWhenRefused == \A j \in Jobs : Final.drops[j] = Cardinality({k \in 1..Len(prog) : prog[k][2] = j /\ prog[k][1] \in {"R", "J"}})
+DropOnlyWhenRefused == \A j \in Jobs :
+   LET d == Cardinality({k \in 1..Len(prog) : prog[k][2] = j /\ prog[k][1] \in {"R", "J"}}) IN
+   IF j = "2" /\ chain = "1R2" THEN Final.drops[j] >= d ELSE Final.drops[j] = d
 
 Emit == (Len(prog) = MaxLen \/ ~ENABLED Next) =>
-          PrintT(<<"EPROG", ToJson([prog |-> prog, calls |-> Final.calls, drops |-> Final.drops, log |-> Final.log])>>)
+          PrintT(<<"EPROG", ToJson([chain |-> chain, prog |-> prog, calls |-> Final.calls, drops |-> Final.drops, log |-> Final.log])>>)
 =============================================================================
